@@ -25,6 +25,7 @@ EXC_KINDS: dict[str, type[BaseException]] = {
     "KeyboardInterrupt": KeyboardInterrupt,
     "SystemExit": SystemExit,
     "StopIteration": StopIteration,
+    "GeneratorExit": GeneratorExit,
     "SimCrash": SimCrash,
 }
 EXC_NAMES = list(EXC_KINDS)
